@@ -9,11 +9,11 @@ fn judge(scn: &Scenario, _p: &Plan, l: &RunLog) -> Vec<oracles::Finding> {
 
 pub fn run(ctx: &Ctx) -> Outcome {
     let mut out = Outcome::default();
-    let d = ctx.tier.pick(6, 7);
+    let d = ctx.tier.pick(6, 8);
     for drv in fsm_all(ctx.tier, d) {
         run_and_report(ctx, &drv, &mut out);
     }
-    for drv in fsm_batch_all(ctx.tier, ctx.tier.pick(6, 6)) {
+    for drv in fsm_batch_all(ctx.tier, ctx.tier.pick(6, 7)) {
         run_and_report(ctx, &drv, &mut out);
     }
     for la in [false, true] {
